@@ -385,7 +385,7 @@ class Probe:
 
         def before(name):
             if probe.gate is not None:
-                probe.gate(name, "enter")
+                probe.gate(name, "enter", None)
             if name == "etag":
                 probe.n_etag += 1
             else:
@@ -400,7 +400,7 @@ class Probe:
                 ev, probe.mid = probe.mid, None
                 probe.world.apply(ev)
             if probe.gate is not None:
-                probe.gate(name, "exit")
+                probe.gate(name, "exit", kind)
 
         def wrap(name, orig):
             if inspect.iscoroutinefunction(orig):
@@ -514,7 +514,7 @@ def impl_run(c):
     try:
         out["snaps"].append(su.snap(None))
         out["primed"] = su.r.last_etag
-        for cmd in c["script"]:
+        for ix, cmd in enumerate(c["script"]):
             if cmd[0] == "ev":
                 su.world.apply(cmd[1])
                 out["snaps"].append(su.snap(None))
@@ -542,12 +542,15 @@ def impl_run(c):
                         return su.r.check_and_reload(force=bool(force))
                     res = loop.run_until_complete(under_loop())
                 elif how == "alias":
-                    res = su.r.check_and_reload() if force else su.r.poll_once()
+                    res = su.r.check_and_reload(force=True) if force else \
+                        (su.r.poll_once() if ix % 2 else su.r.refresh_if_needed())
                 else:
                     raise ValueError(how)
             except Exception as e:  # noqa: BLE001
                 raised = "%s: %s" % (type(e).__name__, e)
-            su.probe.mid = None
+            if su.probe.mid is not None:      # the check never called the source: the change follows it
+                ev, su.probe.mid = su.probe.mid, None
+                su.world.apply(ev)
             info = {"raised": raised, "calls": [(n, s, k, (v if n == "etag" else None)) for n, s, k, v in su.probe.calls],
                     "same_obj": su.guard.policy is before["policy_obj"],
                     "policy_is_last_loaded": bool(su.probe.loaded_objs) and su.guard.policy is su.probe.loaded_objs[-1],
@@ -761,7 +764,7 @@ ALPHA = {
     "s3": ["wnew", "wprev", "wbad", "del", "touch", "fl+", "hf+", "heal", "af+", "vs~", "al~", "chk", "frc",
            "chk~wnew", "chk~wprev", "T+"],
 }
-EXTRA = ["frc~wnew", "frc~wprev", "chk~wbad", "chk~del", "frc~del", "chk~heal", "wsame", "chk~fl+", "chk~fe+"]
+EXTRA = ["frc~wnew", "frc~wprev", "chk~wbad", "chk~del", "frc~del", "wsame", "chk~fl+", "chk~fe+", "chk~touch"]
 
 
 class Builder:
@@ -846,9 +849,8 @@ class Builder:
             mid = None
             if m:
                 evs = self.events(m)
+                assert len(evs) == 1, sym
                 mid = evs[0]
-                for extra in evs[1:]:
-                    pass  # a mid-check step carries one event; "heal" of several flags keeps the first
             self.check(head == "frc", mid)
         else:
             for ev in self.events(sym):
@@ -1006,14 +1008,19 @@ def impl_run_conc(c):
     turns = Turns()
     names = {}
 
-    def gate(name, where):
+    forces = {}
+
+    def gate(name, where, kind):
+        """park exactly where the model's program counter changes:
+           PEtag = at the entry of etag(); PLoad = at the entry of load(); PApply = load() has returned;
+           PErr = etag() raised in an unforced check / load() raised."""
         me = names.get(threading.get_ident())
         if me is None:
             return
-        if where == "enter" and name == "etag":
-            turns.gate(me)        # after the start block, before etag()
-        if where == "exit":
-            turns.gate(me)        # after etag() / load() returned
+        if where == "enter":
+            turns.gate(me)
+        elif name == "load" or (kind == "exc" and not forces.get(me)):
+            turns.gate(me)
 
     try:
         su = Setup(c, gate)
@@ -1052,6 +1059,7 @@ def impl_run_conc(c):
                 i = len(threads)
                 t = threading.Thread(target=body, args=(i, bool(cmd[1])), daemon=True)
                 threads.append(t)
+                forces[i] = bool(cmd[1])
                 phase[i] = 0
                 t.start()
                 with turns.cv:
